@@ -160,6 +160,12 @@ func invalidate(t *rapid.T, c Config) (Config, string) {
 		out.Mangle = kind
 	}
 	out.Shapes[si] = s
+	if kind != "neg-up" && kind != "neg-down" && kind != "neg-latency" && rapid.IntRange(0, 2).Draw(t, "other_defaults") > 0 {
+		// a rejected document must not leave its default section behind either
+		out.Up = pick(t, "bad_up", int64(0), 3*bigBW, 5*bigBW)
+		out.Down = pick(t, "bad_down", int64(0), 3*bigBW, 7*bigBW)
+		out.Latency = pick(t, "bad_latency", int64(0), 0, 3, 33)
+	}
 	return out, kind
 }
 
@@ -695,7 +701,25 @@ func fixedCases() []Case {
 		Resp{Pat: 0, Start: 0, P206: true, Body: 3000, Seed: 8, Star: true}))
 	// throttles: 1500 B/s over 4501 bytes -> 4 chunks -> at least 2 s
 	thr := Shape{Pat: 3, Throttles: []Throttle{{Bytes: "2000-6501", BW: 1500}}, Halts: []Halt{{At: 7000, Dur: 30, N: -1}}}
-	out = append(out, one("conn", thr, Resp{Pat: 3, Body: 8000, Head: 100, Seed: 9, Splits: []int{3000, 777}}))
+	// quick: 1500 B/s over 3001 bytes -> 3 chunks -> at least 1 s, entered through the throttle's start action
+	thr3 := Shape{Pat: 3, Throttles: []Throttle{{Bytes: "2000-5001", BW: 1500}}, Halts: []Halt{{At: 7000, Dur: 30, N: -1}}}
+	out = append(out, one("conn", thr3, Resp{Pat: 3, Body: 8000, Head: 100, Seed: 9, Splits: []int{3000, 777}}))
+	// throttles listed in descending order, range start strictly inside the one listed last:
+	// 1000 B/s over offsets 2000..4001 -> 3 chunks -> at least 1 s
+	unsorted := Shape{Pat: 3, Var: 1, Throttles: []Throttle{{Bytes: "9000-", BW: bigBW}, {Bytes: "5000-9000", BW: 2 * bigBW}, {Bytes: "1000-4001", BW: 1000}}}
+	out = append(out, one("conn", unsorted, Resp{Pat: 3, Start: 2000, Body: 6000, Head: 90, Seed: 16, Splits: []int{1500}}))
+	// a rejected document (shape validation) with another default section: the listener keeps its
+	// defaults, a connection accepted afterwards still owes the accepted configuration's latency
+	for _, level := range []string{"conn", "e2e"} {
+		good := Config{Up: 3 * bigBW, Down: 5 * bigBW, Latency: 40, Shapes: []Shape{{Pat: 0, Closes: []CloseAct{{At: 300, N: -1}}}}}
+		bad1 := Config{Latency: 0, Shapes: []Shape{{Pat: 0, Closes: []CloseAct{{At: 300, N: 0}}}}}
+		bad2 := Config{Up: bigBW, Down: bigBW, Latency: 5, Shapes: []Shape{{Pat: 0}, {Pat: 1, Throttles: []Throttle{{Bytes: "0-10", BW: bigBW}, {Bytes: "5-20", BW: bigBW}}}}}
+		out = append(out, Case{Level: level, Steps: []Step{
+			{Op: "post", Cfg: &good}, {Op: "open", Conn: 0}, {Op: "post", Cfg: &bad1}, {Op: "open", Conn: 1},
+			{Op: "resp", Conn: 1, R: &Resp{Pat: -1, Body: 100, Head: 50, Seed: 50}}, {Op: "post", Cfg: &bad2}, {Op: "open", Conn: 2},
+			{Op: "resp", Conn: 2, R: &Resp{Pat: 0, Body: 1000, Head: 50, Seed: 51}}, {Op: "resp", Conn: 0, R: &Resp{Pat: 0, Body: 1000, Head: 50, Seed: 52}},
+		}})
+	}
 	// three connections share the shape's global bucket of 1500 B/s: the second or third finds less
 	// room in it than in its own bucket
 	shared := Config{Shapes: []Shape{{Pat: 0, MaxBW: 1500}}} // no actions: the shape locks stay out of it
@@ -708,6 +732,8 @@ func fixedCases() []Case {
 	out = append(out, sc)
 	if kit.Thorough() {
 		out = append(out,
+			one("conn", thr, Resp{Pat: 3, Body: 8000, Head: 100, Seed: 9, Splits: []int{3000, 777}}),
+			one("e2e", unsorted, Resp{Pat: 3, Start: 2000, Body: 6000, Seed: 17}),
 			one("conn", thr, Resp{Pat: 3, Start: 3000, Body: 5000, Head: 64, Seed: 10, Splits: []int{1}}),
 			one("conn", Shape{Pat: 3, Throttles: []Throttle{{Bytes: "-4001", BW: 1000}, {Bytes: "4001-", BW: 2 * bigBW}}, Closes: []CloseAct{{At: 5000, N: 1}}},
 				Resp{Pat: 3, Body: 9000, Head: 300, Seed: 11, Splits: []int{4096}}),
